@@ -12,6 +12,7 @@ mod scen_aut;
 mod scen_build;
 mod scen_file;
 mod scen_lev;
+mod scen_merge;
 mod scen_sink;
 mod taut;
 
@@ -71,6 +72,13 @@ fn record(args: &Args) {
             }
             let panics = s.panics;
             let (n, counts) = s.log.finish();
+            println!("{}", json!({"scenario": scen, "events": n, "counts": counts, "panics": panics}));
+        }
+        "c19" => {
+            let mut log = Log::create(&out);
+            scen_merge::c19(&mut log, seed, &tier, &args.get("fst-bin", "fst"), &args.get("work", "/verif/work/C19/run"));
+            let (n, counts) = log.finish();
+            let panics = counts.get("Panic").cloned().unwrap_or(0);
             println!("{}", json!({"scenario": scen, "events": n, "counts": counts, "panics": panics}));
         }
         "c18" => {
